@@ -123,13 +123,16 @@ def _cause(eng, p, x, name, U, T, gpg, D, K, th):
             # hold the evidence that the signed part passed the delegating-metadata checker
             from . import mentions
 
-            disc_ok = [ev for ev in flat(p) if ev[0] == "call" and ev[2] == CHECKER and ev[5][0] == "ok" and ev[3] and ev[3][0] != T and mentions(ev[3][0], SubC(U, "signed"))]
+            from . import checker_family
+
+            FAM = checker_family(eng)
+            disc_ok = [ev for ev in flat(p) if ev[0] == "call" and ev[2] in FAM and ev[5][0] == "ok" and ev[3] and ev[3][0] != T and mentions(ev[3][0], SubC(U, "signed"))]
             if not disc_ok:
                 # ... or the same evidence through a predicate built on the checker
                 # (is_delegating_metadata(x) is True carries ok(checker(x)) from the predicate's summary)
                 from sa.terms import is_call
 
-                disc_ok = [f for f in st.closure() if f[0] == "ok" and is_call(f[1], CHECKER) and f[1][2] and f[1][2][0] != T and mentions(f[1][2][0], SubC(U, "signed"))]
+                disc_ok = [f for f in st.closure() if f[0] == "ok" and is_call(f[1], FAM) and f[1][2] and f[1][2][0] != T and mentions(f[1][2][0], SubC(U, "signed"))]
             if disc_ok:
                 return "declared type equals the role (C06)"
             return None
